@@ -32,5 +32,5 @@ if [ -n "$demo" ]; then
   rm -f "$ev/$demo"
 fi
 echo "== verif check $prop against the changed tree"
-cd /verif && VERIF_REPO="$ev" VERIF_BUDGET_S=$budget ./bin/verif check $prop 2>&1 | cut -c1-260 | grep -v "^      /" | head -14
+cd /verif && VERIF_REPO="$ev" VERIF_BUDGET_S=$budget ./bin/verif check $prop 2>&1 | cut -c1-260 | grep -v "^      /" | head -80
 cd /; git -C /repo worktree remove --force "$ev"; rm -rf "/dev/shm/verif-bin-$(python3 -c "import hashlib,sys;print(hashlib.sha256(sys.argv[1].encode()).hexdigest()[:12])" "$ev")" "/dev/shm/verif-instr-$(python3 -c "import hashlib,sys;print(hashlib.sha256(sys.argv[1].encode()).hexdigest()[:12])" "$ev")" "/dev/shm/verif-instr-$(python3 -c "import hashlib,sys;print(hashlib.sha256(sys.argv[1].encode()).hexdigest()[:12])" "$ev").lock"
